@@ -1,7 +1,12 @@
 (* The model of the column store never leaves its arrays: under the representation invariant WF and with the arguments
-   the callers have validated, no operation returns Fault (an index outside matind / matbeg) or Rej; the one exception is
-   matrix_addrow with a column index repeated in the new row (the space estimate `delta` counts the column once per entry
-   against its old length: known finding F-C06-matrix-addrow-exit) - it is safe when the column indices are distinct. *)
+   the callers have validated, no operation returns Fault (an index outside matind / matbeg) or Rej.
+   matrix_addrow comes in two variants (Store.Matrix, parameter `fixed`):
+   - as found (fixed = false): safe when the column indices of the new row are distinct (the space estimate `delta` counts
+     a column once per entry against its old length; with a repeated index the loop can leave the array / reach exit(1):
+     finding F-C06-matrix-addrow-exit, witness mat_addrow_repeated_column_faults);
+   - as repaired by notes/repo_patches/matrix_addrow_repeated_column.diff (fixed = true): safe for every row
+     (append_fixed_safe, mat_addrow_fixed_safe), and equal to the loop as found wherever that one succeeds
+     (append_fixed_conservative, mat_addrow_conservative). *)
 From Coq Require Import ZArith List Lia Bool Arith QArith.
 From QSX Require Import Store.Spec Store.SpecInv Store.Matrix Store.MatrixInv.
 Import ListNotations.
@@ -322,8 +327,62 @@ Proof.
     apply (IH m1 W1 Hr); [rewrite MC1; exact Hc'|exact ND'|exact B1].
 Qed.
 
-Theorem mat_addrow_safe extra_mat m ents :
-  WF m -> Forall (fun e => fst e < mcols m) ents -> NoDup (map fst ents) -> exists m', mat_addrow extra_mat m ents = Ok m'.
+(* ---- the repaired loop: every branch is behind the test that makes it legal, so it needs no budget and no distinctness ---- *)
+Lemma append_fixed_safe extra_mat R r ents : forall m, WFr R m -> r < R -> Forall (fun e => fst e < mcols m) ents ->
+  exists m', append_fixed extra_mat r ents m = Ok m'.
+Proof.
+  induction ents as [|e ents IH]; intros m W Hr Hc; [eexists; reflexivity|].
+  inversion Hc as [|? ? Hj Hc']; subst. cbn [append_fixed]. set (j := fst e) in *.
+  assert (He : (0 <= fst (Z.of_nat r, snd e) < Z.of_nat R)%Z) by (simpl; lia).
+  pose proof (col_inside _ _ _ W Hj) as Hin. fold j in Hin.
+  assert (REL : cntj m j <> 0 -> cntj m j + 2 <= mfree m ->
+                exists m', bind (relocate m j (begj m j) (cntj m j) (Z.of_nat r, snd e)) (append_fixed extra_mat r ents) = Ok m').
+  { intros C0 Hfit. destruct (relocate m j (begj m j) (cntj m j) (Z.of_nat r, snd e)) as [m1| |] eqn:E1.
+    - destruct (relocate_ok R m j _ m1 W Hj ltac:(lia) He E1) as ((W1 & MC1 & _) & _). simpl. apply IH; [exact W1|exact Hr|rewrite MC1; exact Hc'].
+    - unfold relocate in E1. destruct (msize m <? S (used m) + S (cntj m j)); discriminate.
+    - exfalso. unfold relocate in E1. destruct (Nat.ltb_spec (msize m) (S (used m) + S (cntj m j))) as [Hx|Hx]; [|discriminate].
+      pose proof (wf_free _ _ W). unfold used in Hx. lia. }
+  destruct (Nat.eqb_spec (cntj m j) 0) as [C0|C0].
+  - destruct (Nat.leb_spec (msize m) (begj m j)) as [Hx|_]; [rewrite C0 in Hin; unfold width in Hin; lia|].
+    destruct (fill_empty_ok R m j _ W Hj C0 He) as ((W1 & MC1 & _) & _). apply IH; [exact W1|exact Hr|rewrite MC1; exact Hc'].
+  - destruct (Nat.ltb_spec (begj m j + cntj m j) (msize m)) as [Hlt|Hge]; cbn [andb].
+    + destruct (Z.eqb_spec (ind_at m (begj m j + cntj m j)) FREE) as [F|F].
+      * destruct (in_place_ok R m j _ W Hj ltac:(lia) Hlt F He) as ((W1 & MC1 & _) & _). apply IH; [exact W1|exact Hr|rewrite MC1; exact Hc'].
+      * destruct (Nat.leb_spec (cntj m j + 2) (mfree m)); [apply REL; assumption|apply (repack_safe extra_mat R); exact W].
+    + destruct (Nat.leb_spec (cntj m j + 2) (mfree m)); [apply REL; assumption|apply (repack_safe extra_mat R); exact W].
+Qed.
+
+(* the repair is conservative: wherever the loop as found succeeds, the repaired loop does exactly the same (no hypothesis
+   on m: the new tests are the conditions under which the old branches stay inside the array) *)
+Lemma append_fixed_conservative extra_mat r ents : forall m m',
+  fold_left (append_step r) ents (Ok m) = Ok m' -> append_fixed extra_mat r ents m = Ok m'.
+Proof.
+  induction ents as [|e ents IH]; intros m m' H; [exact H|].
+  change (fold_left (append_step r) ents (append_step r (Ok m) e) = Ok m') in H.
+  destruct (append_step r (Ok m) e) as [m1| |] eqn:S1; [|rewrite fold_append_rej in H; discriminate|rewrite fold_append_fault in H; discriminate].
+  cbn [append_fixed]. unfold append_step, bind in S1. set (j := fst e) in *.
+  destruct (cntj m j =? 0).
+  - destruct (msize m <=? begj m j); [discriminate|]. inversion S1; subst m1. apply IH. exact H.
+  - destruct (Nat.leb_spec (msize m) (begj m j + cntj m j)); [discriminate|].
+    destruct (Nat.ltb_spec (begj m j + cntj m j) (msize m)); [|lia]. cbn [andb].
+    destruct (ind_at m (begj m j + cntj m j) =? FREE)%Z.
+    + inversion S1; subst m1. apply IH. exact H.
+    + destruct (Nat.leb_spec (cntj m j + 2) (mfree m)) as [_|Hx].
+      * rewrite S1. simpl. apply IH. exact H.
+      * exfalso. unfold relocate in S1. destruct (Nat.ltb_spec (msize m) (S (used m) + S (cntj m j))) as [|Hy]; [discriminate|]. unfold used in Hy. lia.
+Qed.
+
+Theorem mat_addrow_conservative extra_mat m ents m' :
+  mat_addrow extra_mat false m ents = Ok m' -> mat_addrow extra_mat true m ents = Ok m'.
+Proof.
+  unfold mat_addrow. destruct (negb _); [discriminate|]. destruct (delta m ents <? mfree m); [|exact (fun H => H)].
+  unfold bind. destruct (fold_left (append_step (mrows m)) ents (Ok m)) as [m1| |] eqn:E; try discriminate.
+  rewrite (append_fixed_conservative extra_mat _ _ _ _ E). exact (fun H => H).
+Qed.
+
+(* fixed = true: for every row; fixed = false (the loop as found): for rows without a repeated column index *)
+Theorem mat_addrow_safe extra_mat fixed m ents :
+  WF m -> Forall (fun e => fst e < mcols m) ents -> fixed = true \/ NoDup (map fst ents) -> exists m', mat_addrow extra_mat fixed m ents = Ok m'.
 Proof.
   intros W Hc ND. unfold mat_addrow.
   assert (V : forallb (fun e => fst e <? mcols m) ents = true).
@@ -331,11 +390,18 @@ Proof.
   rewrite V. simpl negb. cbv iota. unfold bind.
   assert (W1 : WFr (S (mrows m)) m) by (apply (WFr_mono (mrows m)); [lia|exact W]).
   destruct (Nat.ltb_spec (delta m ents) (mfree m)) as [D|D].
-  - destruct (fold_append_safe (S (mrows m)) (mrows m) ents m W1 ltac:(lia) Hc ND) as (m' & E).
-    + unfold budget. rewrite <- delta_need. destruct (atend m ents); lia.
-    + rewrite E. eexists; reflexivity.
+  - destruct fixed.
+    + destruct (append_fixed_safe extra_mat (S (mrows m)) (mrows m) ents m W1 ltac:(lia) Hc) as (m' & E). rewrite E. eexists; reflexivity.
+    + destruct ND as [ND|ND]; [discriminate|].
+      destruct (fold_append_safe (S (mrows m)) (mrows m) ents m W1 ltac:(lia) Hc ND) as (m' & E).
+      * unfold budget. rewrite <- delta_need. destruct (atend m ents); lia.
+      * rewrite E. eexists; reflexivity.
   - destruct (repack_safe extra_mat _ m (mrows m) ents W1) as (m' & E). rewrite E. eexists; reflexivity.
 Qed.
+
+Corollary mat_addrow_fixed_safe extra_mat m ents :
+  WF m -> Forall (fun e => fst e < mcols m) ents -> exists m', mat_addrow extra_mat true m ents = Ok m'.
+Proof. intros W Hc. apply mat_addrow_safe; [exact W|exact Hc|left; reflexivity]. Qed.
 
 (* with a repeated column index the in-place loop can leave the array (known finding F-C06-matrix-addrow-exit): column 0
    (two entries) is followed by one free hole, so `delta` counts nothing for either entry of the new row (0 < matfree = 1);
@@ -344,9 +410,10 @@ Qed.
 Example mat_addrow_repeated_column_faults :
   let m := {| slots := [(0%Z, 1%Q); (1%Z, 1%Q); dslot; (0%Z, 1%Q); dslot];
               beg := [0; 3]; cnt := [2; 1]; mfree := 1; mrows := 2; colsize := 100 |} in
-  wf_check m = true /\ mat_addrow 1000 m [(0, 1%Q); (0, 1%Q)] = Fault /\
-  exists m', mat_addrow 1000 m [(0, 1%Q); (1, 1%Q)] = Ok m'.
-Proof. vm_compute. split; [reflexivity|]. split; [reflexivity|]. eexists. reflexivity. Qed.
+  wf_check m = true /\ mat_addrow 1000 false m [(0, 1%Q); (0, 1%Q)] = Fault /\
+  (exists m', mat_addrow 1000 false m [(0, 1%Q); (1, 1%Q)] = Ok m') /\
+  (exists m', mat_addrow 1000 true m [(0, 1%Q); (0, 1%Q)] = Ok m' /\ wf_check m' = true /\ msize m' = 1006).
+Proof. vm_compute. split; [reflexivity|]. split; [reflexivity|]. split; eexists; [reflexivity|]. split; [reflexivity|]. split; reflexivity. Qed.
 
 (* ---- the executable invariant implies WF ------------------------------------------------------------------------ *)
 Lemma disjoint_from_spec b w : forall bs cs, disjoint_from b w bs cs = true -> length bs = length cs ->
